@@ -593,7 +593,10 @@ impl<'a> Flatten<'a> {
         let last = p.segments.last().unwrap().clone();
         let through_reexport = p.segments.iter().any(|s| s.ident == "__");
         let first = p.segments.first().unwrap().ident.to_string();
-        let from_konst = matches!(first.as_str(), "crate" | "konst" | "konst_kernel" | "self" | "super");
+        let foreign = matches!(first.as_str(), "core" | "std" | "alloc" | "vstd");
+        let lower_mod = first.chars().next().map(|c| c.is_lowercase()).unwrap_or(false) && !foreign;
+        let from_konst = matches!(first.as_str(), "crate" | "konst" | "konst_kernel" | "self" | "super")
+            || (lower_mod && !INT_TYPES.contains(&first.as_str()) && first != "str" && first != "char" && first != "bool");
         if through_reexport || (from_konst && self.known.contains(&last.ident.to_string())) {
             // keep an enum-variant / assoc path of two trailing segments when the type is known
             let n = p.segments.len();
@@ -896,7 +899,7 @@ fn main() {
     let reqs = std::fs::read_to_string(&req_path).unwrap_or_else(|e| die(&format!("{}: {}", req_path, e)));
 
     enum Req {
-        Fn(String, Option<String>, Vec<(String, String)>),
+        Fn(String, Option<String>, Vec<(String, String)>, bool),
         Impl(String, Vec<String>),
         Ty(String),
     }
@@ -913,7 +916,7 @@ fn main() {
                 let newname = if w.len() >= 4 && w[2] == "as" { Some(w[3].to_string()) } else { None };
                 let mut renames = Vec::new();
                 if let Some(pos) = w.iter().position(|x| *x == "with") {
-                    for pair in w[pos + 1..].iter().flat_map(|x| x.split(',')) {
+                    for pair in w[pos + 1..].iter().take_while(|x| **x != "nobounds").flat_map(|x| x.split(',')) {
                         if let Some((a, b)) = pair.split_once('=') {
                             renames.push((a.to_string(), b.to_string()));
                             known.insert(b.to_string());
@@ -923,7 +926,8 @@ fn main() {
                 let base = w[1].rsplit("::").next().unwrap().to_string();
                 known.insert(newname.clone().unwrap_or(base.clone()));
                 known.insert(base);
-                rs.push(Req::Fn(w[1].to_string(), newname, renames));
+                let nobounds = w.iter().any(|x| *x == "nobounds");
+                rs.push(Req::Fn(w[1].to_string(), newname, renames, nobounds));
             }
             "impl" => {
                 known.insert(w[1].rsplit("::").next().unwrap().to_string());
@@ -948,7 +952,7 @@ fn main() {
     let mut report = String::new();
     for r in rs {
         match r {
-            Req::Fn(path, newname, renames) => {
+            Req::Fn(path, newname, renames, nobounds) => {
                 let Some(f) = idx.fns.get(&path) else {
                     missing.push(path);
                     continue;
@@ -959,6 +963,16 @@ fn main() {
                 }
                 let (mut ts, st) = {
                     let mut sig = f.sig.clone();
+                    if nobounds {
+                        // L5: the pattern traits are abstracted (DESIGN 4.2): bounds and where-clauses are dropped
+                        sig.generics.where_clause = None;
+                        for gp in sig.generics.params.iter_mut() {
+                            if let GenericParam::Type(tp) = gp {
+                                tp.bounds.clear();
+                                tp.colon_token = None;
+                            }
+                        }
+                    }
                     let mut block = (*f.block).clone();
                     lower_fn_parts(&mut sig, &mut block, &mut errors, &path)
                 };
